@@ -645,6 +645,18 @@ def fam_bound_core(tier="quick"):
     return L
 
 
+def fam_yield_dpor():
+    """Programs whose outcome needs a yield_now to happen EARLIER than the point at which DPOR reverses the
+    race that follows it (listed finding D24): the unbounded run misses the outcome, bounded runs find it
+    through their conservative backtrack points."""
+    return [
+        prog_line("pbY0", ["A0"], [["sp 1", "rmw 0 add 1 sc", "st 0 5 sc", "jn 1"], ["yl", "ld 0 sc"]]),
+        prog_line("pbY1", ["A0"], [["sp 1", "st 0 5 sc", "rmw 0 add 1 sc", "yl", "jn 1"], ["yl", "rmw 0 add 10 sc"]]),
+        prog_line("pbY2", ["A0"], [["sp 1", "ld 0 sc", "ld 0 sc", "rmw 0 add 1 sc", "jn 1"], ["yl", "rmw 0 add 10 sc"]]),
+        prog_line("pbY3", ["A0"], [["sp 1", "rmw 0 add 1 sc", "rmw 0 add 1 sc", "ld 0 sc", "jn 1"], ["yl", "rmw 0 add 10 sc"]]),
+    ]
+
+
 def fam_ctl_core(tier="quick"):
     """F-ctl for C19: placements of explore / stop_exploring / skip_branch."""
     L = []
